@@ -2,5 +2,5 @@ SPECIFICATION TSpec
 CONSTANTS
   SwapRefreshesNormals = TRUE
   MergeKeepsFourNodes = TRUE
-INVARIANTS P_WriteSucceeds P_Counts P_FileIsWrite P_ReadBack P_PathWriter P_ReaderIsRead
+INVARIANTS P_WriteSucceeds P_Counts P_FileIsWrite P_ReadBack P_PathWriter P_NoRebaseWriter P_ReaderIsRead
 CHECK_DEADLOCK FALSE
